@@ -1252,3 +1252,100 @@ theorem filterMap_length_of_all_some {m : Entries} (h : ∀ p ∈ m, p.2.runner.
       rw [ih (fun q hq => h q (List.mem_cons_of_mem _ hq))]
 
 end GoSup.Cluster
+
+namespace GoSup.Cluster
+open GoSup.Planner
+
+/-! ## an update cut short by the end of the context, and the shutdown that follows -/
+
+theorem stopPhase_stop_cleared (p : Entries) (hnd : (keysOf p).Nodup) {K : String} {e : Entry}
+    (he : Planner.get (stopPhase p).1 K = some e) (ha : e.action = .stop) : e.runner = none := by
+  rw [get_stopPhase] at he
+  split at he
+  · cases hg : Planner.get p K with
+    | none => simp [hg] at he
+    | some e0 => simp only [hg, Option.map_some, Option.some.injEq] at he; rw [← he]; rfl
+  · rename_i hns
+    exact absurd ((mem_toStop hnd K).mpr ⟨e, he, ha⟩) hns
+
+/-- the cut update keeps the accounting invariant: it stops, it starts nothing -/
+theorem acc_applyUpdateCut {cur : Entries} {effs : List Eff} {next : Nat} {des : List (String × Nat)}
+    (h : Acc cur effs next) (hw : Wf cur des) :
+    Acc (applyUpdateCut cur des next).entries (effs ++ (applyUpdateCut cur des next).effects) (applyUpdateCut cur des next).next := by
+  have hndp := nodup_buildPending cur des
+  have hnds : (keysOf (stopPhase (buildPending cur des)).1).Nodup := by rw [keysOf_stopPhase]; exact hndp
+  have h2 := acc_after_stop h hw
+  exact acc_commit h2 hnds (fun K e he ha => stopPhase_stop_cleared _ hndp he ha)
+
+/-- with the empty desired map every entry of the plan is a stop entry -/
+theorem plan_empty_all_stop {cur : Entries} {K : String} {e : Entry} (he : Planner.get (buildPending cur []) K = some e) :
+    e.action = .stop := by
+  rcases mem_buildPending (mem_of_get he) with ⟨⟨k0, e0⟩, _, hq⟩ | ⟨d, hd, _⟩
+  · simp only [contrib, lookupD] at hq
+    rcases mem_processExisting hq with ⟨h1, _⟩ | ⟨_, h1⟩ | ⟨c, _, h1, _⟩
+    · simp only at h1; rw [h1]
+    · cases h1
+    · cases h1
+  · simp at hd
+
+/-- the shutdown empties the entries, whatever they were (entries without a runner included) -/
+theorem shutdown_entries_nil (cur : Entries) (next : Nat) : (shutdown cur next).entries = [] := by
+  apply nil_of_get_none
+  intro K
+  have hu := get_update (fun _ => Fate.ok) cur [] next K
+  unfold shutdown
+  cases hg : Planner.get (buildPending cur []) K with
+  | none => rw [hg] at hu; exact hu
+  | some e =>
+    rw [hg] at hu
+    simp only [plan_empty_all_stop hg] at hu
+    exact hu
+
+theorem keys_commit_sub {m : Entries} {k : String} (hk : k ∈ keysOf (commit m)) : k ∈ keysOf m := by
+  unfold commit at hk
+  have := keysOf_mapVal (m.filter fun p => p.2.action != .stop) (fun _ e => { e with action := .none })
+  rw [this] at hk
+  exact (keysOf_filter_sublist m _).subset hk
+
+end GoSup.Cluster
+
+namespace GoSup.Cluster
+open GoSup.Planner
+
+/-- the ids a cut update leaves behind are ids the cluster had or was asked for (never a `":stop"` key) -/
+theorem keys_cut_sub {cur : Entries} {des : List (String × Nat)} {next : Nat} {k : String}
+    (hk : k ∈ keysOf (applyUpdateCut cur des next).entries) : k ∈ keysOf cur ∨ k ∈ des.map (·.1) := by
+  have hndp := nodup_buildPending cur des
+  have hnds : (keysOf (stopPhase (buildPending cur des)).1).Nodup := by rw [keysOf_stopPhase]; exact hndp
+  simp only [keysOf, List.mem_map] at hk
+  obtain ⟨⟨k', e⟩, hm, rfl⟩ := hk
+  have hsome := get_isSome_of_mem hm
+  simp only [applyUpdateCut] at hsome
+  rw [get_commit hnds] at hsome
+  cases hg : Planner.get (stopPhase (buildPending cur des)).1 k' with
+  | none => simp [hg] at hsome
+  | some e0 =>
+    have hns : e0.action ≠ .stop := by
+      intro ha
+      simp [hg, Option.filter, ha] at hsome
+    rw [get_stopPhase] at hg
+    have hp : ∃ e1, Planner.get (buildPending cur des) k' = some e1 ∧ e1.action ≠ .stop := by
+      split at hg
+      · cases hx : Planner.get (buildPending cur des) k' with
+        | none => simp [hx] at hg
+        | some e1 =>
+          simp only [hx, Option.map_some, Option.some.injEq] at hg
+          exact ⟨e1, rfl, by rw [← hg] at hns; exact hns⟩
+      · exact ⟨e0, hg, hns⟩
+    obtain ⟨e1, he1, hns1⟩ := hp
+    rcases mem_buildPending (mem_of_get he1) with ⟨⟨k0, c0⟩, hp0, hq⟩ | ⟨d, hd, hq⟩
+    · rcases mem_processExisting hq with ⟨h1, _⟩ | ⟨h1, _⟩ | ⟨c, h1, _⟩
+      · simp only at h1; rw [h1] at hns1; exact absurd rfl hns1
+      · simp only [Prod.mk.injEq] at h1
+        left; rw [h1.1]; exact List.mem_map_of_mem (f := (·.1)) hp0
+      · simp only [Prod.mk.injEq] at h1
+        left; rw [h1.1]; exact List.mem_map_of_mem (f := (·.1)) hp0
+    · simp only [Prod.mk.injEq] at hq
+      right; rw [hq.1]; exact List.mem_map_of_mem (f := (·.1)) hd
+
+end GoSup.Cluster
